@@ -1,8 +1,12 @@
 import Driver.Num
 import Driver.Lang
+import Driver.Check
+import Driver.Exact
+import Driver.Literal
+import Driver.Enc
 open Fpy Fpy.Drv
 
-def handlers : List (String → Option (P String)) := [handleNum]
+def handlers : List (String → Option (P String)) := [handleNum, handleCheck, handleExact, handleLiteral, handleEnc]
 
 def handleLine (line : String) : String :=
   match handleLangLine line with
